@@ -81,3 +81,13 @@ Theorem C14_pending_while_condition_false :
 Proof. exact AsyncRefine.pending_while_condition_false. Qed.
 Print Assumptions C14_pending_while_condition_false.
 
+
+(** P-tie: the body of [MRBFuture::poll], executed symbolically on every run for every sequence of attempt outcomes (gen/PollGen.v:
+    which events - attempt of the stored operation, registration of the polling task's waker - happen in which order, how the poll
+    ends; the by-reference and the by-value form must agree), is the Model's [poll] *)
+Require MRB.Model.PollShape MRB.gen.PollGen.
+Theorem C14_poll_is_source :
+  PollGen.poll_clean = true /\
+  forall (k : Types.stage) (o : Types.op) (s : Async.astate), PollShape.poll_by_shape PollGen.poll_shape k o s = Some (Async.poll k o s).
+Proof. split; [exact AsyncFacts.poll_source_closed | exact AsyncFacts.poll_is_source_shape]. Qed.
+Print Assumptions C14_poll_is_source.
